@@ -125,7 +125,10 @@ func (s *generateState) generateType(t schema.Type, selections []ast.Selection, 
 						return "", fmt.Errorf("__typename is required by inline fragment")
 					}
 				}
-				cond := s.schema.NamedTypes()[sel.TypeCondition.Name.Name]
+				cond := t.(schema.NamedType)
+				if sel.TypeCondition != nil {
+					cond = s.schema.NamedTypes()[sel.TypeCondition.Name.Name]
+				}
 				gen, err := s.generateType(cond, sel.SelectionSet.Selections, false, fragTypes)
 				if err != nil {
 					return "", err
